@@ -71,6 +71,9 @@ def random_unit(rng, descs, all_atom):
             desc.setdefault(rng.randrange(n), []).append(dsc)
         text, pre = M.render_coarse_fragment(rng, g, list(g.nodes), desc)
         return text, n, None
+    if len(descs) == 1 and descs[0][2] == 1 and rng.random() < 0.12:
+        # an explicit hydrogen as a fragment of its own (end cap): [$][H]
+        return M.fmt_desc(*descs[0]) + '[H]', 1, M.MASS['H']
     if rng.random() < 0.15:
         # hand-written units with a lower-case aromatic ring (benzene, pyrrole-type [nH], imidazole); descriptors sit on the
         # aliphatic carbons; the stand-alone mass is known from the formula
@@ -236,6 +239,8 @@ def random_config(rng, closed=True):
         feats.add('unit_with_aromatic_nH')
     if any('c1' in t for t in frags.values()):
         feats.add('unit_with_aromatic_ring')
+    if any(t.endswith('[H]') and t.count('[') == 2 for t in frags.values()):
+        feats.add('single_hydrogen_fragment')
     if rng.random() < 0.3:
         cfg['via'] = 'dict'
         feats.add('constructor_with_shared_fragment_dict')
